@@ -8,6 +8,7 @@ import (
 	"net/http"
 	"strings"
 	"sync"
+	"time"
 
 	"github.com/gorilla/websocket"
 	"go.nanomsg.org/mangos/v3"
@@ -32,6 +33,7 @@ type wsUp struct {
 
 // wsServer is the raw peer a library ws/wss dialer connects to.
 type wsServer struct {
+	path   string // requests for any other path are strays from other processes
 	ln     net.Listener
 	srv    *http.Server
 	mu     sync.Mutex
@@ -46,6 +48,7 @@ func newWSServer(tlsCfg *tls.Config, sel func([]string) (string, bool)) (*wsServ
 	if err != nil {
 		return nil, err
 	}
+	ln = spcodec.NoLingerListener(ln)
 	if tlsCfg != nil {
 		ln = tls.NewListener(ln, tlsCfg)
 	}
@@ -56,6 +59,10 @@ func newWSServer(tlsCfg *tls.Config, sel func([]string) (string, bool)) (*wsServ
 }
 
 func (s *wsServer) handle(w http.ResponseWriter, r *http.Request) {
+	if s.path != "" && r.URL.Path != s.path {
+		http.NotFound(w, r)
+		return
+	}
 	offers := websocket.Subprotocols(r)
 	raw := strings.Join(r.Header.Values("Sec-Websocket-Protocol"), " || ")
 	up := wsUp{offers: offers, raw: raw}
@@ -118,10 +125,10 @@ func caseWS(c *mon.Case, sp spec) {
 		}
 		l, err := sock.NewListener(hx.ListenAddr(sp.Tr), lo)
 		if err != nil {
-			panic(err)
+			panic(envError{err})
 		}
 		if err := l.Listen(); err != nil {
-			panic(err)
+			panic(envError{err})
 		}
 		url := l.Address() // ws://127.0.0.1:port/path
 		_, rest := spcodec.SplitURL(url)
@@ -133,7 +140,7 @@ func caseWS(c *mon.Case, sp spec) {
 		if !secure {
 			t, err := spcodec.NewTap(hostport)
 			if err != nil {
-				panic(err)
+				panic(envError{err})
 			}
 			tap = t
 			c.Cleanup(tap.Close)
@@ -141,13 +148,13 @@ func caseWS(c *mon.Case, sp spec) {
 			libBytes = func(tc *spcodec.TapConn) []byte { return tc.S2C() }
 		}
 		want := spcodec.WSSubprotocol(proto.Name) // the listener's own name: what its peers offer
-		dialWith := func(offers []string) (*websocket.Conn, *http.Response, error, bool) {
-			d := &websocket.Dialer{Subprotocols: offers}
+		dialWith := func(target string, offers []string) (*websocket.Conn, *http.Response, error, bool) {
+			d := &websocket.Dialer{Subprotocols: offers, NetDial: spcodec.DialTCPNoLinger}
 			if secure {
 				d.TLSClientConfig = cliTLS
 			}
 			dc := mon.Go("ws-dial", func() (interface{}, error) {
-				cn, resp, err := d.Dial(dialURL, nil)
+				cn, resp, err := d.Dial(target, nil)
 				return [2]interface{}{cn, resp}, err
 			})
 			if !wait("ws/upgrade-stuck", fmt.Sprintf("library listener answering an upgrade offering %q", offers), dc) {
@@ -176,13 +183,18 @@ func caseWS(c *mon.Case, sp spec) {
 			[]string{proto.Name + ".sp.nanomsg"},
 			[]string{"sp.nanomsg.org"},
 		)
+		if !sp.Full {
+			// later rounds: no offer at all plus two of the foreign ones
+			a, b := 1+c.Rand.Intn(len(foreign)-1), 1+c.Rand.Intn(len(foreign)-1)
+			foreign = [][]string{foreign[0], foreign[a], foreign[b]}
+		}
 		refused := 0
 		for _, off := range foreign {
 			if c.Failed() || c.Undecided() {
 				return
 			}
 			c.Logf("offer %q", off)
-			cn, resp, err, ok := dialWith(off)
+			cn, resp, err, ok := dialWith(url, off)
 			if !ok {
 				return
 			}
@@ -204,15 +216,11 @@ func caseWS(c *mon.Case, sp spec) {
 			refused++
 		}
 		if n := pw.Attached(); n != 0 {
-			c.Violate("ws/foreign-subprotocol-accepted:"+tag, "%d pipes attached after only foreign offers", n)
+			attachViolation(c, pw, "ws/foreign-subprotocol-accepted:"+tag, "%d pipes attached after only foreign offers", n)
 			return
 		}
 		c.Count("ws_foreign_offers_refused", refused)
-		nbefore := 0
-		if tap != nil {
-			nbefore = len(tap.Conns())
-		}
-		cn, resp, err, ok := dialWith([]string{want})
+		cn, resp, err, ok := dialWith(dialURL, []string{want})
 		if !ok {
 			return
 		}
@@ -231,7 +239,7 @@ func caseWS(c *mon.Case, sp spec) {
 		}
 		conn = cn
 		if tap != nil {
-			tapConn = func() *spcodec.TapConn { return tap.Conns()[nbefore] }
+			tapConn = func() *spcodec.TapConn { return findTap(tap, path) }
 		}
 	} else {
 		want := spcodec.WSSubprotocol(proto.PeerName) // the dialer names its peer
@@ -249,22 +257,23 @@ func caseWS(c *mon.Case, sp spec) {
 		}
 		srv, err := newWSServer(scfg, sel)
 		if err != nil {
-			panic(err)
+			panic(envError{err})
 		}
 		c.Cleanup(srv.close)
 		hostport := srv.ln.Addr().String()
 		path := "/" + hx.Uniq("p")
+		srv.path = path
 		dialURL := sp.Tr + "://" + hostport + path
 		if !secure {
 			t, err := spcodec.NewTap(hostport)
 			if err != nil {
-				panic(err)
+				panic(envError{err})
 			}
 			tap = t
 			c.Cleanup(tap.Close)
 			dialURL = "ws://" + tap.Addr() + path
 			libBytes = func(tc *spcodec.TapConn) []byte { return tc.C2S() }
-			tapConn = func() *spcodec.TapConn { return tap.Conns()[0] }
+			tapConn = func() *spcodec.TapConn { return findTap(tap, path) }
 		}
 		var do map[string]interface{}
 		if secure {
@@ -272,8 +281,9 @@ func caseWS(c *mon.Case, sp spec) {
 		}
 		d, err := sock.NewDialer(dialURL, do)
 		if err != nil {
-			panic(err)
+			panic(envError{err})
 		}
+		d.SetOption(mangos.OptionReconnectTime, time.Hour)
 		dial := mon.Go("Dial", func() (interface{}, error) { return nil, d.Dial() })
 		up := mon.Go("ws-upgrade", func() (interface{}, error) { return <-srv.ups, nil })
 		if !wait("ws/dial-no-upgrade-request", "raw server receiving the library's upgrade request", up) {
@@ -390,7 +400,12 @@ func caseWS(c *mon.Case, sp spec) {
 
 	// frames as seen on the wire (ws only)
 	if tapConn != nil && len(sent) > 0 {
-		raw := libBytes(tapConn())
+		tc := tapConn()
+		if tc == nil {
+			c.Inconclusive("the tap saw no upgrade request for this case's path")
+			return
+		}
+		raw := libBytes(tc)
 		_, rest, ok := spcodec.SplitHTTPHead(raw)
 		if !ok {
 			c.Violate("harness:tap-no-http-head", "tap recorded %d bytes without an HTTP head", len(raw))
@@ -450,6 +465,17 @@ func caseWS(c *mon.Case, sp spec) {
 		c.Nontrivial()
 	}
 	c.Sig("ws|%s|%s", tag, shape)
+}
+
+// findTap returns the relayed connection whose upgrade request names path
+// (other connections to the tap's port are strays from other processes).
+func findTap(t *spcodec.Tap, path string) *spcodec.TapConn {
+	for _, tc := range t.Conns() {
+		if bytes.Contains(head(tc.C2S(), 1024), []byte(" "+path+" ")) {
+			return tc
+		}
+	}
+	return nil
 }
 
 func sizeBucket(n int) string {
